@@ -262,8 +262,8 @@ def run(ctx):
         closed[f"N={N},m={m},built from {init}"] = dict(states=ns, transitions=nt, closed=cl)
         res.merge_violations(viol)
     L = 5 if th else 4
-    # the longest sequences for the first six configurations; one call less for the others (the alphabet has 19 operations)
-    tasks = [(N, m, init, l, f) for ci, (N, m, init) in enumerate(cfgs) for l in range(1, (L if ci < 6 else L - 1) + 1)
+    # the longest sequences for the first four configurations; one call less for the others (the alphabet has 19 operations)
+    tasks = [(N, m, init, l, f) for ci, (N, m, init) in enumerate(cfgs) for l in range(1, (L if ci < 4 else L - 1) + 1)
              for f in range(len(alphabet(N)))]
     seqs = 0
     for t, (n, viol) in zip(tasks, pmap(unmerged, tasks)):
